@@ -80,10 +80,13 @@ package parse
 //@   ensures l.pos == ite(old(l.pos) > len(l.input), len(l.input), old(l.pos))
 //@   ensures l.start == l.pos
 //@   ensures l.lastEmit.typ == t && len(l.lastEmit.val) == l.pos - old(l.start)
+//@   at call send#0 assert[item-position-inside-input;C19] arg1.typ == t && 0 <= arg1.pos && arg1.pos <= len(l.input)
 
 //@ func (*lexer).errorf
 //@   pure
-//@   props C05
+//@   props C05 C19
+//@   requires 0 <= l.pos && l.pos <= len(l.input)
+//@   at call send#0 assert[error-item-at-scan-position;C19] arg1.typ == itemError && arg1.pos == l.pos
 //@   ensures result == nil
 
 //@ func (*lexer).accept
@@ -106,7 +109,7 @@ package parse
 //@   pure
 //@   props C05 C19
 //@   requires 0 <= pos && pos <= len(l.input)
-//@   ensures result >= 1 && result <= 1 + pos
+//@   ensures[line-inside-input;C19] result >= 1 && result <= 1 + pos
 
 //@ func (*lexer).columnNumber
 //@   pure
@@ -368,14 +371,34 @@ package parse
 //@     decreases ntoks(t.lex) - cursor(t)
 
 // errorf / unexpected / error never return: they raise the parse error.
+// C19: the error value is built from the tree's file name and the line/column
+// of one position, the same numbers are formatted into the message, and
+// unexpected() locates the error at the token it was given.
+//@ func (*tree).errorfAt
+//@   props C05 C19
+//@   requires t.lex != nil && 0 <= pos && pos <= len(t.lex.input)
+//@   noreturn
+//@   ghost ln int = 0
+//@   ghost cn int = 0
+//@   ghost ev error = nil
+//@   at call (*lexer).lineNumber#0 assert[message-line-of-pos;C19] arg1 == pos
+//@   at call (*lexer).columnNumber#0 assert[message-col-of-pos;C19] arg1 == pos
+//@   at call (*lexer).lineNumber#1 assert[line-of-pos;C19] arg1 == pos
+//@   at call (*lexer).lineNumber#1 after set ln = res
+//@   at call (*lexer).columnNumber#1 assert[col-of-pos;C19] arg1 == pos
+//@   at call (*lexer).columnNumber#1 after set cn = res
+//@   at call errortypes.NewErrFilePosf#0 assert[file-line-col;C19] arg0 == t.name && arg1 == ln && arg2 == cn
+//@   at call errortypes.NewErrFilePosf#0 after set ev = res
+//@   at call panic#0 assert[raises-that-error;C19] arg0 == ev
 //@ func (*tree).errorf
 //@   props C05 C19
 //@   requires treeOK(t)
 //@   noreturn
 //@ func (*tree).unexpected
 //@   props C05 C19
-//@   requires treeOK(t)
+//@   requires treeOK(t) && 0 <= token.pos && token.pos <= len(t.lex.input)
 //@   noreturn
+//@   at call (*tree).errorfAt#* assert[position-of-offending-token;C19] arg1 == token.pos
 //@ func (*tree).error
 //@   props C05
 //@   requires treeOK(t)
